@@ -78,6 +78,13 @@ def logZ (Lx Ly : Nat) : List Op :=
 def getDeformation (name axis : String) (loc : Coord) : Option PauliMap :=
   deformBy qubitAxis name axis loc
 
+/-- the explicit independent family of `n − k` generators of the rank clause
+    (`C01Toric2DCode.generators_independent`, proved in `Proofs/LatToric2DCodeRank.lean`): all stabilizer
+    locations but one vertex and one face; printed by the driver op `rankfamily` and evaluated on the
+    implementation's parity-check matrix on every run -/
+def selStabs (Lx Ly : Nat) : List Coord :=
+  (stabs Lx Ly).filter fun s => s != [0, 0] && s != [1, 1]
+
 def lattice (Lx Ly : Nat) : Lattice where
   qubits := qubits Lx Ly
   stabs := stabs Lx Ly
